@@ -12,8 +12,9 @@ class RegConcCheck(PropCheck):
     def correspond(self, tier, seed, rng):
         n = self.n_quick if tier == "quick" else self.n_thorough
         scenarios = [rc.gen_scenario(rng, self.profile) for _ in range(n)]
-        if self.profile == "chain":
-            # deterministic coverage of the first-registration window, for every kind of predecessor
+        if self.profile == "chain" or self.pid == "C03":
+            # deterministic coverage of the first-registration window, for every kind of predecessor (C03: a
+            # delivery that lands there - also on the registering thread itself - must still finish by itself)
             scenarios += rc.window_sweep(rng)
         results = rc.run_many(scenarios)
         # search for a failing input (DESIGN 4.1): when the step trace no longer matches the model but
